@@ -159,7 +159,7 @@ def corrmtx(x_input, m, method='autocorrelation'):
         x = x.astype(float)
 
 
-    if x.dtype == complex:
+    if numpy.iscomplexobj(x):
         complex_type = True
     else:
         complex_type = False
